@@ -21,7 +21,12 @@ RULE = ('class grid N(1..16) x T_ref placement(6) x range class(2) x supply '
         '9 shipped libraries. Non-trivial = a correlation whose relations '
         '(i)-(vi) were all evaluated at >=5 temperatures; distinct by data.'
         ' Argument forms: scalar float T; the array form of get_CpoR on '
-        'every surface. ')
+        'every surface. '
+        ' '
+        'Rounds 17-19: shared never-evaluated objects evaluated from four'
+        ' threads; copies / pickles made before and after first use; objects'
+        ' that went through a refused merge (stored data unchanged, own'
+        ' copy() evaluates alike).')
 ASSUMPTIONS = [
     'positive temperatures, distinct tabulated temperatures',
     'numpy/scipy InterpolatedUnivariateSpline is a black-box interpolant '
